@@ -51,14 +51,17 @@ structure PI (p : Pool) (L : List Nat) : Prop where
   relDisj : ∀ b, b ∈ p.released → b ∉ p.parked ∧ b ∉ L
   freeNum : p.freeNum = p.parked.length
   keep : p.parked.length ≤ p.keep
-  balance : p.ctor = p.dtor + L.length
+  balance : p.ctor = p.dtor + L.length + p.leaked
+  statBal : p.stat.allocT = p.stat.freeT + L.length
+  statPeakA : L.length ≤ p.stat.peakA
+  statPeakF : p.parked.length ≤ p.stat.peakF
 
 def PInv (s : PoolSys) : Prop := PI s.pool s.liveBlocks
 
 theorem pinit_inv : PInv PoolSys.init := by
   have : PoolSys.init.liveBlocks = [] := by simp [PoolSys.init, PoolSys.liveBlocks]
   unfold PInv; rw [this]
-  refine ⟨?_, ?_, ?_, ?_, ?_, rfl, ?_, ?_⟩ <;> simp [PoolSys.init]
+  refine ⟨?_, ?_, ?_, ?_, ?_, rfl, ?_, ?_, ?_, ?_, ?_⟩ <;> simp [PoolSys.init]
 
 theorem PI_free (p : Pool) (L L' : List Nat) (b : Nat) (hi : PI p L) (hperm : L.Perm (b :: L')) :
     PI (p.free b) L' ∧ (p.free b).dtor = p.dtor + 1 ∧ (p.free b).ctor = p.ctor := by
@@ -72,7 +75,7 @@ theorem PI_free (p : Pool) (L L' : List Nat) (b : Nat) (hi : PI p L) (hperm : L.
   have hnb : b ∉ L' := (List.nodup_cons.1 hnd).1
   refine ⟨?_, ?_, ?_⟩
   · by_cases hk : p.freeNum < p.keep
-    · refine ⟨?_, (List.nodup_cons.1 hnd).2, ?_, ?_, ?_, ?_, ?_, ?_⟩
+    · refine ⟨?_, (List.nodup_cons.1 hnd).2, ?_, ?_, ?_, ?_, ?_, ?_, ?_, ?_, ?_⟩
       · simp [Pool.free, hk]; exact ⟨hbp, hi.parkedNodup⟩
       · intro x hx
         simp [Pool.free, hk] at hx
@@ -97,7 +100,15 @@ theorem PI_free (p : Pool) (L L' : List Nat) (b : Nat) (hi : PI p L) (hperm : L.
       · have := hi.freeNum; simp [Pool.free, hk]; omega
       · have := hi.balance
         simp [Pool.free, hk] at hlen ⊢; omega
-    · refine ⟨?_, (List.nodup_cons.1 hnd).2, ?_, ?_, ?_, ?_, ?_, ?_⟩
+      · have := hi.statBal
+        simp [Pool.free, hk] at hlen ⊢; omega
+      · have := hi.statPeakA
+        simp [Pool.free, hk] at hlen ⊢; omega
+      · have h1 := hi.statPeakF; have h2 := hi.freeNum
+        have hk' : p.parked.length < p.keep := h2 ▸ hk
+        simp only [Pool.free, h2, hk', if_true, List.length_cons]
+        split <;> omega
+    · refine ⟨?_, (List.nodup_cons.1 hnd).2, ?_, ?_, ?_, ?_, ?_, ?_, ?_, ?_, ?_⟩
       · simp [Pool.free, hk]; exact hi.parkedNodup
       · intro x hx
         simp [Pool.free, hk] at hx
@@ -120,6 +131,12 @@ theorem PI_free (p : Pool) (L L' : List Nat) (b : Nat) (hi : PI p L) (hperm : L.
       · have := hi.keep; simp [Pool.free, hk]; exact this
       · have := hi.balance
         simp [Pool.free, hk] at hlen ⊢; omega
+      · have := hi.statBal
+        simp [Pool.free, hk] at hlen ⊢; omega
+      · have := hi.statPeakA
+        simp [Pool.free, hk] at hlen ⊢; omega
+      · have h1 := hi.statPeakF
+        simp [Pool.free, hk]; exact h1
   · simp only [Pool.free]; split <;> rfl
   · simp only [Pool.free]; split <;> rfl
 
@@ -134,7 +151,7 @@ theorem PI_alloc (p : Pool) (L L' : List Nat) (hi : PI p L) (hperm : L'.Perm (p.
       have hb : p.alloc.2 = p.nextBlk := by simp [Pool.alloc, hp]
       have hnl : p.nextBlk ∉ L := fun hx => Nat.lt_irrefl _ (hi.fresh _ (Or.inr (Or.inl hx)))
       have hnr : p.nextBlk ∉ p.released := fun hx => Nat.lt_irrefl _ (hi.fresh _ (Or.inr (Or.inr hx)))
-      refine ⟨⟨?_, ?_, ?_, ?_, ?_, ?_, ?_, ?_⟩, hb ▸ hnl, hb ▸ hnr, by simp [Pool.alloc, hp], by simp [Pool.alloc, hp]⟩
+      refine ⟨⟨?_, ?_, ?_, ?_, ?_, ?_, ?_, ?_, ?_, ?_, ?_⟩, hb ▸ hnl, hb ▸ hnr, by simp [Pool.alloc, hp], by simp [Pool.alloc, hp]⟩
       · simp [Pool.alloc, hp]
       · rw [hperm.nodup_iff, List.nodup_cons, hb]
         exact ⟨hnl, hi.liveNodup⟩
@@ -156,13 +173,18 @@ theorem PI_alloc (p : Pool) (L L' : List Nat) (hi : PI p L) (hperm : L'.Perm (p.
       · simp [Pool.alloc, hp]
       · have := hi.balance
         simp [Pool.alloc, hp] at hlen ⊢; omega
+      · have := hi.statBal
+        simp [Pool.alloc, hp] at hlen ⊢; omega
+      · have h1 := hi.statPeakA; have h2 := hi.statBal
+        simp [Pool.alloc, hp] at hlen ⊢; split <;> omega
+      · simp [Pool.alloc, hp]
   | cons b rest =>
       have hb : p.alloc.2 = b := by simp [Pool.alloc, hp]
       have hbp : b ∈ p.parked := by rw [hp]; simp
       have hnl : b ∉ L := hi.disjoint b hbp
       have hnr : b ∉ p.released := fun hx => (hi.relDisj b hx).1 hbp
       have hnd := hi.parkedNodup; rw [hp] at hnd
-      refine ⟨⟨?_, ?_, ?_, ?_, ?_, ?_, ?_, ?_⟩, hb ▸ hnl, hb ▸ hnr, by simp [Pool.alloc, hp], by simp [Pool.alloc, hp]⟩
+      refine ⟨⟨?_, ?_, ?_, ?_, ?_, ?_, ?_, ?_, ?_, ?_, ?_⟩, hb ▸ hnl, hb ▸ hnr, by simp [Pool.alloc, hp], by simp [Pool.alloc, hp]⟩
       · simp [Pool.alloc, hp]; exact (List.nodup_cons.1 hnd).2
       · rw [hperm.nodup_iff, List.nodup_cons, hb]
         exact ⟨hnl, hi.liveNodup⟩
@@ -194,6 +216,11 @@ theorem PI_alloc (p : Pool) (L L' : List Nat) (hi : PI p L) (hperm : L'.Perm (p.
       · have := hi.keep; simp [Pool.alloc, hp] at this ⊢; omega
       · have := hi.balance
         simp [Pool.alloc, hp] at hlen ⊢; omega
+      · have := hi.statBal
+        simp [Pool.alloc, hp] at hlen ⊢; omega
+      · have h1 := hi.statPeakA; have h2 := hi.statBal
+        simp [Pool.alloc, hp] at hlen ⊢; split <;> omega
+      · have := hi.statPeakF; simp [Pool.alloc, hp] at this ⊢; omega
 
 /-- freeing the object in slot `h` -/
 theorem free_slot_inv (s : PoolSys) (h b v : Nat) (hi : PInv s) (hh : s.slots[h]? = some (some (b, v))) :
@@ -218,10 +245,61 @@ theorem freeSlots_inv (s : PoolSys) (hs : List Nat) (hi : PInv s) : PInv (s.free
         exact ih _ (free_slot_inv s h b v hi hh).1
       · exact ih _ hi
 
-theorem renew_inv (s : PoolSys) (k : Nat) (hi : PInv s) : PInv { s with pool := s.pool.renew k } := by
+theorem blocksOf_all_none (l : List (Option (Nat × Nat))) (h : ∀ k, k < l.length → l[k]? = some none) :
+    blocksOf l = [] := by
+  induction l with
+  | nil => rfl
+  | cons x l ih =>
+      have h0 := h 0 (by simp)
+      simp at h0; subst h0
+      have : blocksOf l = [] := ih (fun k hk => by have := h (k + 1) (by simp; omega); simpa using this)
+      simpa [blocksOf] using this
+
+theorem freeSlots_all_none (s : PoolSys) (hs : List Nat)
+    (h : ∀ k, k < s.slots.length → k ∈ hs ∨ s.slots[k]? = some none) :
+    ∀ k, k < (s.freeSlots hs).slots.length → (s.freeSlots hs).slots[k]? = some none := by
+  induction hs generalizing s with
+  | nil =>
+      intro k hk
+      rcases h k hk with h' | h'
+      · cases h'
+      · exact h'
+  | cons a hs ih =>
+      unfold PoolSys.freeSlots
+      split
+      · rename_i b v hh
+        apply ih
+        intro k hk
+        simp only [List.length_set] at hk
+        by_cases e : k = a
+        · subst e; right; simp [hk]
+        · rcases h k hk with h' | h'
+          · simp only [List.mem_cons] at h'
+            rcases h' with h' | h'
+            · exact absurd h' e
+            · exact Or.inl h'
+          · right; simp only; rw [List.getElem?_set_ne (fun e' => e e'.symm)]; exact h'
+      · rename_i hnot
+        apply ih
+        intro k hk
+        rcases h k hk with h' | h'
+        · simp only [List.mem_cons] at h'
+          rcases h' with h' | h'
+          · subst h'
+            right
+            have hv : s.slots[k]? = some s.slots[k] := List.getElem?_eq_getElem hk
+            cases hx : s.slots[k] with
+            | none => rw [hv, hx]
+            | some bv => obtain ⟨b, v⟩ := bv; exact absurd (by rw [hv, hx]) (hnot b v)
+          · exact Or.inl h'
+        · exact Or.inr h'
+
+theorem renew_inv (s : PoolSys) (k : Nat) (hi : PInv s) (hempty : s.liveBlocks = []) :
+    PInv { s with pool := s.pool.renew k } := by
   have hi' : PI s.pool s.liveBlocks := hi
   show PI (s.pool.renew k) s.liveBlocks
-  refine ⟨by simp [Pool.renew], hi'.liveNodup, by simp [Pool.renew], ?_, ?_, rfl, by simp [Pool.renew], hi'.balance⟩
+  refine ⟨by simp [Pool.renew], hi'.liveNodup, by simp [Pool.renew], ?_, ?_, rfl, by simp [Pool.renew], hi'.balance,
+    by simp [Pool.renew, hempty], by simp [hempty], by simp [Pool.renew]⟩
   · intro b hb
     simp [Pool.renew] at hb ⊢
     rcases hb with hb | hb | hb
@@ -233,5 +311,34 @@ theorem renew_inv (s : PoolSys) (k : Nat) (hi : PInv s) : PInv { s with pool := 
     rcases hb with hb | hb
     · exact hi'.disjoint b hb
     · exact (hi'.relDisj b hb).2
+
+theorem renew_step_inv (s : PoolSys) (k : Nat) (hi : PInv s) : PInv (s.step (.renew k)).1 := by
+  simp only [PoolSys.step]
+  have h1 := freeSlots_inv s (List.range s.slots.length) hi
+  apply renew_inv _ k h1
+  rw [liveBlocks_eq]
+  apply blocksOf_all_none
+  apply freeSlots_all_none
+  intro j hj; left; exact List.mem_range.2 hj
+
+/-- `~ObjectPool()` while objects are live: their blocks are neither parked nor returned, so nothing
+the destructor frees is still in use; no destructor of `T` runs — the objects are abandoned -/
+theorem drop_step_inv (s : PoolSys) (k : Nat) (hi : PInv s) : PInv (s.step (.drop k)).1 := by
+  have hi' : PI s.pool s.liveBlocks := hi
+  have he : ({ pool := { s.pool.renew k with leaked := s.pool.leaked + s.liveBlocks.length },
+               slots := List.replicate s.slots.length none } : PoolSys).liveBlocks = [] := by
+    rw [liveBlocks_eq]; apply blocksOf_all_none
+    intro j hj; simp at hj; simp [List.getElem?_replicate, hj]
+  simp only [PoolSys.step]
+  unfold PInv
+  rw [he]
+  refine ⟨by simp [Pool.renew], by simp, by simp, ?_, by simp [Pool.renew], rfl, by simp [Pool.renew], ?_, by simp [Pool.renew],
+    by simp, by simp [Pool.renew]⟩
+  · intro b hb
+    simp [Pool.renew] at hb ⊢
+    rcases hb with hb | hb
+    · exact hi'.fresh b (Or.inl hb)
+    · exact hi'.fresh b (Or.inr (Or.inr hb))
+  · have := hi'.balance; simp [Pool.renew]; omega
 
 end Tbox.C08
